@@ -1,6 +1,7 @@
 (* Executable model of handler results and success/failure/exception feedback in
    circuits/core (DESIGN.md §6 C04; the KValues layer + the plain-generator subset of KTasks),
-   for the REPAIRED code (fixes/C04_success_after_failure.patch, fixes/C04_generator_raise_finishes.patch):
+   for the REPAIRED code (fixes/C04_success_after_failure.patch, fixes/C04_generator_raise_finishes.patch,
+   fixes/C04_nested_value_flags.patch):
 
      Value.setValue / inform      None / single / list accumulation, result flag, promise, value_changed
      Manager._dispatcher          per-handler try/except, errors flag, <name>_failure + exception events,
@@ -37,7 +38,8 @@ with hdl :=
          (k = length ys) fires lk and then returns (StopIteration) or raises *)
 with res :=
 | RRet (v : pyval) | RRaise
-| RNest (sp : ev).     (* `return self.fire(sp)`: fires the nested event sp and returns its Value *)
+| RNest (sp : ev)      (* `return self.fire(sp)`: fires the nested event sp and returns its Value *)
+| RStop (r : res).     (* `event.stop()` first, then as r: the remaining handlers of the event do not run *)
 
 Definition ev_lbl (e : ev) := let 'Ev l _ _ _ _ _ _ := e in l.
 Definition ev_succ (e : ev) := let 'Ev _ b _ _ _ _ _ := e in b.
@@ -68,10 +70,12 @@ Inductive entry :=
 Record value := { vv : pyval; vresult : bool; verrors : bool; vpromise : bool }.
 Definition vinit : value := {| vv := PNone; vresult := false; verrors := false; vpromise := false |}.
 
-(* Value.setValue on the _value attribute: `if self.result and isinstance(self._value, list): append
-   elif self.result: self._value = [self._value, value]  else: self._value = value` *)
-Definition set_py (cur : pyval) (result : bool) (x : pyval) : pyval :=
-  if result then match cur with PList l => PList (l ++ [x]) | y => PList [y; x] end else x.
+(* Value.setValue on the _value attribute (repaired, fixes/C04_nested_value_flags.patch):
+   `if isinstance(self._value, list): append  elif self._value is not None: self._value = [self._value, value]
+    else: self._value = value` — whether something has been collected no longer depends on the
+   `result` flag (which a nested Value resets) *)
+Definition set_py (cur : pyval) (x : pyval) : pyval :=
+  match cur with PNone => x | PList l => PList (l ++ [x]) | y => PList [y; x] end.
 
 Record task := { tev : nat; thd : nat; tk : nat }.
 
@@ -159,7 +163,7 @@ Definition inform (force : bool) (e : nat) (s : st) : st :=
    the walk up the parent chain *)
 Definition set_value_local (e : nat) (x : pyval) (s : st) : st :=
   let v := val s e in
-  let s1 := set_val e {| vv := set_py (vv v) (vresult v) x; vresult := vresult v || negb (is_none x);
+  let s1 := set_val e {| vv := set_py (vv v) x; vresult := vresult v || negb (is_none x);
                          verrors := verrors v; vpromise := vpromise v |} s in
   if is_none x then s1 else inform false e s1.
 
@@ -179,9 +183,11 @@ Fixpoint propagate (fuel : nat) (o : nat) (x : pyval) (s : st) : st :=
       match vpar s o with
       | None => s
       | Some p =>
-          let s1 := set_val p (with_flags (val s p) (vresult (val s o)) (verrors (val s o))) s in
+          let s1 := set_val p (with_flags (val s p) (vresult (val s o))
+                                          (verrors (val s p) || verrors (val s o))) s in
           let s2 := match x with
-                    | PRef d => set_val p (with_flags (val s1 p) (vresult (val s1 d)) (verrors (val s1 d))) s1
+                    | PRef d => set_val p (with_flags (val s1 p) (vresult (val s1 d))
+                                                      (verrors (val s1 p) || verrors (val s1 d))) s1
                     | PNone => s1
                     | _ => inform false p (set_val p (with_flags (val s1 p) true (verrors (val s1 p))) s1)
                     end in
@@ -189,16 +195,16 @@ Fixpoint propagate (fuel : nat) (o : nat) (x : pyval) (s : st) : st :=
       end
   end.
 
-(* Value.setValue: a Value argument gets `parent = self`, is stored like any result, and its result / errors
-   flags are copied (no inform); any other argument as above; then the parent chain *)
+(* Value.setValue: a Value argument gets `parent = self`, is stored like any result, and its result flag
+   is copied and its errors flag or-ed in (repaired: sticky; no inform); any other argument as above; then the parent chain *)
 Definition set_value (e : nat) (x : pyval) (s : st) : st :=
   match x with
   | PRef d =>
       let s0 := set_par d e s in
       let v := val s0 e in
       propagate (S e) e x
-        (set_val e {| vv := set_py (vv v) (vresult v) x; vresult := vresult (val s0 d);
-                      verrors := verrors (val s0 d); vpromise := vpromise v |} s0)
+        (set_val e {| vv := set_py (vv v) x; vresult := vresult (val s0 d);
+                      verrors := verrors v || verrors (val s0 d); vpromise := vpromise v |} s0)
   | _ => propagate (S e) e x (set_value_local e x s)
   end.
 
@@ -226,15 +232,19 @@ Definition add_task (e i : nat) (s : st) : st :=
   set_tasks (tasks s ++ [{| tev := e; thd := i; tk := 0 |}])
             (set_promise e (set_wait e (S (waiting s e)) s)).
 
+Fixpoint unstop (r : res) : res := match r with RStop r' => unstop r' | _ => r end.
+Definition stops (h : hdl) : bool := match h with HP _ (RStop _) => true | _ => false end.
+
 (* one handler of the pass; the bool is the dispatcher's `err is not None` *)
 Definition run_handler (e i : nat) (h : hdl) (err : bool) (s : st) : st * bool :=
   match h with
   | HP kids r =>
       let s1 := fire_all kids (add_log (LH e i) s) in
-      match r with
+      match unstop r with
       | RRaise => (set_value e PErr (raise_feedback e (set_errors e s1)), true)
       | RRet v => (if is_none v then s1 else set_value e v s1, err)
       | RNest sp => (set_value e (PRef (next s1)) (fire_user sp s1), err)
+      | RStop _ => (s1, err)
       end
   | HG _ _ _ => (add_task e i s, err)
   end.
@@ -242,7 +252,9 @@ Definition run_handler (e i : nat) (h : hdl) (err : bool) (s : st) : st * bool :
 Fixpoint run_handlers (e i : nat) (hs : list hdl) (err : bool) (s : st) : st * bool :=
   match hs with
   | [] => (s, err)
-  | h :: r => let '(s1, err1) := run_handler e i h err s in run_handlers e (S i) r err1 s1
+  | h :: r => let '(s1, err1) := run_handler e i h err s in
+              if stops h then (s1, err1)          (* `if event.stopped: break` *)
+              else run_handlers e (S i) r err1 s1
   end.
 
 Definition observers (a o : bool) : list nat := (if a then [0] else []) ++ (if o then [1] else []).
@@ -255,8 +267,10 @@ Definition dispatch (e : nat) (s : st) : st :=
   | KUser =>
       let s0 := set_phase e PActive s in
       let '(s1, err) := run_handlers e 0 (ev_hs (spec s0 e)) false s0 in
-      (* the two catch-all observers (priorities -5, -6) run last and return None *)
-      let s2 := log_all (map (LDU e) (observers true (ev_both (spec s1 e)))) s1 in
+      (* the two catch-all observers (priorities -5, -6) run last and return None — unless a handler
+         has stopped the event *)
+      let s2 := log_all (if existsb stops (ev_hs (spec s0 e)) then []
+                         else map (LDU e) (observers true (ev_both (spec s1 e)))) s1 in
       event_done e err s2
   | KDer k x a o => set_phase e PFin (log_all (map (LDD k x) (observers a o)) s)
   end.
@@ -377,8 +391,7 @@ Definition contrib (sp : nat -> ev) (e : nat) (x : entry) : list pyval :=
   | LH e' i =>
       if Nat.eqb e' e then
         match nth_error (ev_hs (sp e)) i with
-        | Some (HP _ (RRet v)) => nonnone v
-        | Some (HP _ RRaise) => [PErr]
+        | Some (HP _ r) => match unstop r with RRet v => nonnone v | RRaise => [PErr] | _ => [] end
         | _ => []
         end
       else []
@@ -404,7 +417,8 @@ Definition produced (sp : nat -> ev) (e : nat) (lg : list entry) : list pyval :=
 Definition raises (sp : nat -> ev) (e : nat) (x : entry) : bool :=
   match x with
   | LH e' i => Nat.eqb e' e && match nth_error (ev_hs (sp e)) i with
-                               | Some (HP _ RRaise) => true | _ => false end
+                               | Some (HP _ r) => match unstop r with RRaise => true | _ => false end
+                               | _ => false end
   | LG e' i k => Nat.eqb e' e && match nth_error (ev_hs (sp e)) i with
                                  | Some (HG ys _ gr) => match nth_error ys k with Some _ => false | None => gr end
                                  | _ => false end
@@ -436,21 +450,39 @@ Definition handler_finished (lg : list entry) (e i : nat) (h : hdl) : Prop :=
   end.
 
 (* what Value.setValue makes of a sequence of non-None results, starting from a fresh Value *)
-Fixpoint accum_from (cur : pyval) (result : bool) (l : list pyval) : pyval :=
+Fixpoint accum_from (cur : pyval) (l : list pyval) : pyval :=
   match l with
   | [] => cur
-  | x :: r => accum_from (set_py cur result x) true r
+  | x :: r => accum_from (set_py cur x) r
   end.
-Definition accum (l : list pyval) : pyval := accum_from PNone false l.
+Definition accum (l : list pyval) : pyval := accum_from PNone l.
 
-(* ---- programs of the original grammar: no handler returns the Value of a nested event, no script value is
-   a Value reference *)
+(* the handler-activity part of a log *)
+Definition is_h (x : entry) : bool := match x with LH _ _ | LG _ _ _ => true | _ => false end.
+Definition hpart (l : list entry) : list entry := filter is_h l.
+
+(* in a newest-first list of handler-activity entries: the segments of one generator handler that are older
+   than segment k have smaller numbers *)
+Definition hordered (H : list entry) : Prop :=
+  forall h1 h2 e i k, H = h1 ++ LG e i k :: h2 -> forall k', In (LG e i k') h2 -> k' < k.
+
+(* a plain handler that ends by raising (possibly after event.stop()) *)
+Definition raising (h : hdl) : bool :=
+  match h with HP _ r => match unstop r with RRaise => true | _ => false end | _ => false end.
+
+(* the handlers of a dispatcher pass that are actually invoked: up to and including the first one that
+   stops the event *)
+Fixpoint upto_stop (hs : list hdl) : list hdl :=
+  match hs with [] => [] | h :: r => if stops h then [h] else h :: upto_stop r end.
+
+(* ---- programs of the original grammar: no handler returns the Value of a nested event or calls
+   event.stop(), no script value is a Value reference *)
 Fixpoint plain_ev (e : ev) : bool :=
   match e with Ev _ _ _ _ _ _ hs => forallb plain_hdl hs end
 with plain_hdl (h : hdl) : bool :=
   match h with
   | HP kids r => forallb plain_ev kids &&
-                 match r with RRet v => negb (is_ref v) | RRaise => true | RNest _ => false end
+                 match r with RRet v => negb (is_ref v) | RRaise => true | RNest _ | RStop _ => false end
   | HG ys lk _ => forallb (fun p => forallb plain_ev (fst p) && negb (is_ref (snd p))) ys && forallb plain_ev lk
   end.
 
